@@ -9,7 +9,9 @@ HERE = os.path.dirname(os.path.dirname(os.path.abspath(__file__)))
 
 COMMON_NOTE = ("Trusts rustc's MIR construction (nightly 1.97, mir-opt-level=0) and the dependency crates' documented "
                "behaviour; decides the structural clause named above for all inputs/histories, not the run-time "
-               "behaviour of the primitives.")
+               "behaviour of the primitives. Every rule is evaluated on the all-features MIR of the dev profile and of a "
+               "build without cfg(debug_assertions) (what --release compiles); thorough repeats it on all 63 other "
+               "feature subsets.")
 
 CHECKS = {
     'C01': dict(
